@@ -1022,6 +1022,38 @@ Proof.
 Qed.
 
 
+(* the column ensemble over the user's list of entries: mean over the FITTED members only *)
+Lemma column_ensemble_is_mean_of_fitted_members k spec x :
+  fitted_members spec <> [] ->
+  (forall m, In m (fitted_members spec) -> is_dist k (snd m (select (fst m) x))) ->
+  is_dist k (colens_spec_proba k spec x) /\
+  forall j, (j < k)%nat ->
+    nth j (colens_spec_proba k spec x) 0 ==
+    qsum (map (fun m => nth j (snd m (select (fst m) x)) 0) (fitted_members spec))
+    / qlen (fitted_members spec).
+Proof. intros H1 H2. apply column_ensemble_is_mean_of_members; assumption. Qed.
+
+Lemma fitted_members_app a b : fitted_members (a ++ b) = fitted_members a ++ fitted_members b.
+Proof. unfold fitted_members. apply flat_map_app. Qed.
+
+(* entries that are never fitted do not count: not as members, not in the divisor *)
+Lemma unfitted_entries_do_not_count k a b x cols f :
+  colens_spec_proba k (a ++ EDrop cols :: b) x = colens_spec_proba k (a ++ b) x /\
+  colens_spec_proba k (a ++ EClf [] f :: b) x = colens_spec_proba k (a ++ b) x.
+Proof.
+  unfold colens_spec_proba. split.
+  - rewrite !fitted_members_app. reflexivity.
+  - rewrite !fitted_members_app. reflexivity.
+Qed.
+
+Lemma fitted_members_le spec : (length (fitted_members spec) <= length spec)%nat.
+Proof.
+  induction spec as [|e spec IH]; [apply le_n|].
+  change (fitted_members (e :: spec)) with (fitted_members ([e] ++ spec)).
+  rewrite fitted_members_app, app_length. cbn [length app].
+  destruct e as [c|[|c cs] f]; cbn [fitted_members flat_map app length]; lia.
+Qed.
+
 (* ---------------------------------------------------------------- least squares optimality *)
 
 Definition sse (ts ys : list Q) (a b : Q) : Q :=
